@@ -902,7 +902,9 @@ def l6(prog: Program, chk: Check) -> None:
     chk.rule("L6", "no value of a correlation function, eta kernel or cell integral is served "
              "from a hand-written memo whose key leaves out an argument the value depends on "
              "(real-time and Matsubara values, or different tolerances, must not share slots); "
-             "functools caches key by all arguments and are accepted", floor=1)
+             "functools caches key by all arguments - including the object itself, through its "
+             "__hash__ / __eq__: a correlations class that defines value equality must compare "
+             "everything the memoised method reads", floor=1)
     from rules.c20 import _a7_unit
     n = 0
     for u in prog.units_in(BC):
@@ -915,6 +917,11 @@ def l6(prog: Program, chk: Check) -> None:
                     f"entry keyed / validated by {covered}" if not missing else
                     f"the stored value depends on {missing}, which is not part of the key: "
                     f"a later call with a different {missing[0]} is served the old value", st)
+    # functools caches key by all arguments - `self` included, through __hash__ / __eq__
+    from rules.c20 import cache_equality_findings
+    for (mu, construct, ok, detail) in cache_equality_findings(prog, {BC}):
+        chk.saw(mu)
+        chk.add("L6", mu, construct, ok, detail, mu.node)
     chk.add("L6", prog.module(BC), f"{n} functions of bath_correlations scanned for memo idioms",
             n >= 20, "" if n >= 20 else "the module shrank below what was confirmed by hand")
 
